@@ -128,6 +128,8 @@ def gen_run_set(rng, n=None, vary=None):
         choice[d] = vals[:k] if d in vary else vals[:1]
     seen = set()
     runs = []
+    # now and then every run has the same samples (or none): the mean column itself is uniform
+    uniform_mean = gen_samples(rng) if rng.random() < 0.06 else None
     for _ in range(n * 6):
         if len(runs) >= n:
             break
@@ -136,6 +138,8 @@ def gen_run_set(rng, n=None, vary=None):
             continue
         seen.add(combo)
         kind, samples = gen_samples(rng)
+        if uniform_mean is not None:
+            kind, samples = uniform_mean
         dps = []
         warm = rng.choice([0, 0, 1, 2])
         for i in range(warm):
@@ -800,7 +804,30 @@ def check_sessions(ck, n_scen):
         elif sorted(got_lines) != sorted(exp_lines):
             ck.disagree('c18.session: printed table vs model table from the data actually produced', inp,
                         {'stdout_table': got_lines}, {'expected_table': exp_lines}, TH_TABLE)
-            ck.oracle_fail('every_run_once', inp, {'printed': got_lines[:16], 'expected': exp_lines[:16]},
+        # oracle on the printed text itself: every run once (benchmark name = first word of a row; several rows per
+        # name when the cores vary), with its sample count and rounded mean or Failed (last two words)
+        printed = []
+        header, body = table_row_lines(out)
+        uniform_samples = None
+        for l in out.split('\n'):
+            w = l.split()
+            if len(w) == 2 and w[0] == '#Samples':
+                uniform_samples = w[1]          # the summary of uniform values
+        for l in body:
+            w = l.split()
+            if len(w) >= 2:
+                printed.append((w[0], w[-2] if '#Samples' in header else uniform_samples, w[-1]))
+        want = []
+        for r in runs:
+            smp = r['samples']
+            if smp:
+                m = sum(Fraction(v) for v in smp) / len(smp)
+                want.append((r['b'], str(len(smp)), str(int(round(m)))))
+            else:
+                want.append((r['b'], '0', 'Failed'))
+        if not tie and sorted(printed) != sorted(want):
+            ck.oracle_fail('every_run_once', inp, {'printed (benchmark, samples, mean)': sorted(printed)[:16],
+                                                   'expected': sorted(want)[:16]},
                            signature={'clause': 'every_run_once', 'level': 'session'})
         if rows_model['summary']:
             text = format_pretty_table([[name, val[1] if val[0] != 'f' else 'Failed'] for name, val in rows_model['summary']],
@@ -810,6 +837,15 @@ def check_sessions(ck, n_scen):
                             {'stdout_tail': out[-900:]}, {'summary': rows_model['summary']}, TH_TABLE)
                 ck.oracle_fail('column_kept_or_moved', inp, {'summary_block_printed': False},
                                signature={'clause': 'column_kept_or_moved', 'level': 'session'})
+
+
+def table_row_lines(out):
+    """the data rows of the last pretty table in stdout"""
+    lines = out.rstrip('\n').split('\n')
+    bars = [i for i, l in enumerate(lines) if l and set(l.strip()) == {'-'}]
+    if len(bars) < 3:
+        return '', []
+    return lines[bars[-3] + 1], lines[bars[-2] + 1:bars[-1]]
 
 
 # ------------------------------------------------------------------ entry points
